@@ -5,6 +5,7 @@ import (
 	"fmt"
 	"io"
 	"strings"
+	"sync"
 )
 
 type TemplateWriter interface {
@@ -36,6 +37,9 @@ type Template struct {
 	// Calculation
 	tokens []*Token
 	parser *Parser
+
+	// TrimBlocks/LStripBlocks are applied to the tokens once
+	optionsApplied sync.Once
 
 	// first come, first serve (it's important to not override existing entries in here)
 	level          int
@@ -99,28 +103,33 @@ func (tpl *Template) newContextForExecution(context Context) (*Template, *Execut
 		// Issue #94 https://github.com/flosch/pongo2/issues/94
 		// If an application configures pongo2 template to trim_blocks,
 		// the first newline after a template tag is removed automatically (like in PHP).
-		prev := &Token{
-			Typ: TokenHTML,
-			Val: "\n",
-		}
-
-		for _, t := range tpl.tokens {
-			if tpl.Options.LStripBlocks {
-				if prev.Typ == TokenHTML && t.Typ != TokenHTML && t.Val == "{%" {
-					prev.Val = strings.TrimRight(prev.Val, "\t ")
-				}
+		//
+		// The tokens are rewritten in place, so this must happen only once per
+		// template (and not once per execution, possibly concurrently).
+		tpl.optionsApplied.Do(func() {
+			prev := &Token{
+				Typ: TokenHTML,
+				Val: "\n",
 			}
 
-			if tpl.Options.TrimBlocks {
-				if prev.Typ != TokenHTML && t.Typ == TokenHTML && prev.Val == "%}" {
-					if len(t.Val) > 0 && t.Val[0] == '\n' {
-						t.Val = t.Val[1:len(t.Val)]
+			for _, t := range tpl.tokens {
+				if tpl.Options.LStripBlocks {
+					if prev.Typ == TokenHTML && t.Typ != TokenHTML && t.Val == "{%" {
+						prev.Val = strings.TrimRight(prev.Val, "\t ")
 					}
 				}
-			}
 
-			prev = t
-		}
+				if tpl.Options.TrimBlocks {
+					if prev.Typ != TokenHTML && t.Typ == TokenHTML && prev.Val == "%}" {
+						if len(t.Val) > 0 && t.Val[0] == '\n' {
+							t.Val = t.Val[1:len(t.Val)]
+						}
+					}
+				}
+
+				prev = t
+			}
+		})
 	}
 
 	// Determine the parent to be executed (for template inheritance)
